@@ -11,7 +11,9 @@ def run(res, tier, seed, replay):
     ok, out = vlib.build_extract()
     if not ok: res.broke("extraction of the model failed", out); return
     n = 120 if tier == "quick" else 4000
-    histlib.check_histories(res, "c17", n, seed + 17, "flush", max_lifetimes=3 if tier == "quick" else 6, extra_lines=histlib.CORPUS)
+    faults = [("mp0 r0,r5,fk0,fk1,fk2,fk3 I:r0:raw:0,MPFAIL:r5|I:r5:raw:1,C:r5", [["I:r0:raw:0", "MPFAIL:r5"], ["I:r5:raw:1", "C:r5"]]),
+              ("mp1 r5,fk0,fk1,fk2,fk3 MPFAIL:r5", [["MPFAIL:r5"]])]         # mprotect refused at installation: either nothing is written, or what is written is flushed
+    histlib.check_histories(res, "c17", n, seed + 17, "flush", max_lifetimes=3 if tier == "quick" else 6, extra_lines=histlib.CORPUS + faults)
     # target placements: hand-placed code at every byte alignment (entry = 0..15 mod 16), entries straddling a page, low addresses
     import arenalib, random
     rr = random.Random(seed + 170)
